@@ -31,6 +31,7 @@ from spec import wire as W
 # each entry: name -> builder returning (codec, value specs, triggering request or None)
 # value spec: (parameter name, kind) with kind one of
 #   ("uint", bits) ("sint", bits) ("bytes", minlen, maxlen) - a symbolic value of that physical type
+#   ("sint-in-range", bits) - a signed value for which "every value of the type is accepted" is stated
 def d_sid_u8():
     return B.request([B.coded_const("sid", 0x22, 0), B.value_param("v", B.dop("u8", 8), 1)]), [("v", ("uint", 8))], None
 
@@ -233,6 +234,15 @@ def d_length_key_uint():
         [("len", ("dependent", 8)), ("v", ("dependent", 32))], None
 
 
+def d_length_key_sint():
+    # the length key of a signed value: not required, so a length that holds the value - sign bit included - is implied
+    # (7 bit key: lengths up to 127 bits keep the shifts of the range check within what the engine encodes)
+    k = B.length_key("len", B.dop("u7", 7), 1)
+    d = B.dop("pls", dct=B.param_length_type(k, DataType.A_INT32), dt=DataType.A_INT32)
+    return B.request([B.coded_const("sid", 0x22, 0), k, B.value_param("v", d), B.coded_const("end", 0x55)]), \
+        [("len", ("dependent", 7, (-8, 135))), ("v", ("sint-in-range", 32))], None
+
+
 def d_length_key_bytes():
     k = B.length_key("len", B.dop("u8", 8), 1)
     d = B.dop("plb", dct=B.param_length_type(k, DataType.A_BYTEFIELD), dt=DataType.A_BYTEFIELD)
@@ -406,7 +416,7 @@ DESCRIPTIONS = {
     "leading-length-bytes": d_leading_length_bytes, "leading-length-text": d_leading_length_text,
     "dynamic-length-field": d_dynamic_length_field, "dtc": d_dtc, "multiplexer": d_multiplexer,
     "table-key+struct": d_table_key_struct, "table-fixed-row": d_table_fixed_row,
-    "length-key-uint": d_length_key_uint, "length-key-bytes": d_length_key_bytes,
+    "length-key-uint": d_length_key_uint, "length-key-bytes": d_length_key_bytes, "length-key-sint": d_length_key_sint,
     "struct-bytesize+minmax0": d_struct_bytesize_then_minmax, "reserved-bitpos-spill": d_reserved_bitpos_spill,
     "leading-length-le16": d_leading_length_le16, "leading-length-last": d_leading_length_last,
     "static-field-dynamic-item": d_static_field_dynamic_item,
@@ -463,6 +473,12 @@ def _value(name, kind):
         return H.int(f"val_{name}")
     if kind[0] == "sint":
         return H.int(f"val_{name}")
+    if kind[0] == "sint-in-range":
+        # (values beyond 100 bits are left out: the range check of the encoder shifts by the implied length, and the
+        # engine encodes shifts up to 136 bits)
+        return H.int(f"val_{name}", -(1 << 100), 1 << 100)
+    if kind[0] == "dependent" and len(kind) > 2:
+        return H.int(f"val_{name}", kind[2][0], kind[2][1])
     if kind[0] == "dependent":
         return H.int(f"val_{name}")  # an integer whose admissibility depends on other values (length keys)
     if kind[0] == "affine":
@@ -502,6 +518,8 @@ def _acceptable(kind, value):
     description in a way this helper does not spell out)"""
     if kind[0] == "uint":
         return H.And(value >= 0, value < (1 << kind[1]))
+    if kind[0] == "sint-in-range":
+        return H.And(value >= -(1 << (kind[1] - 1)), value < (1 << (kind[1] - 1)))
     if kind[0] == "dict":
         parts = [_acceptable(k, value[n]) for (n, k) in kind[1]]
         if any([q is None for q in parts]):
@@ -579,7 +597,7 @@ def _fam(tier, seed):
 
 
 @harness(props=["C01", "C02", "C03", "C04", "C05", "C08"], strength="B", family=_fam,
-         bound="51 concrete request/response descriptions built from the real parameter / DOP / diag-coded-type classes "
+         bound="52 concrete request/response descriptions built from the real parameter / DOP / diag-coded-type classes "
          "(constants, defaults, reserved bits, low-high and non-aligned values, linear compu method, request echoes, "
          "MIN-MAX-LENGTH types with the three terminations, PHYS-CONST, SYSTEM, structures with and without BYTE-SIZE, end-of-PDU, static and dynamic-length fields, LEADING-LENGTH types, DTC DOP, multiplexer, table key/struct, PARAM-LENGTH-INFO types with their length key); per description every value is "
          "symbolic",
@@ -823,7 +841,7 @@ def _two_length_service():
          family=lambda t, s: [{"desc": k, "phase": ph} for k in DESCRIPTIONS for ph in ("encode", "decode")
                               if not (ph == "decode" and k in DECODE_SKIP)] +
          [{"desc": "nrc-const-service", "phase": "decode"}, {"desc": "two-length-service", "phase": "decode"}],
-         bound="the 51 concrete descriptions plus one service with two NRC-CONST negative responses; values and "
+         bound="the 52 concrete descriptions plus one service with two NRC-CONST negative responses; values and "
          "messages symbolic",
          functions=FUNCTIONS + [DiagService.decode_message], covers=["strict-success"],
          assumes=["A-bitstruct", "A-lib"], limits={"max_paths": 40000, "task_timeout": 1500, "sym_for_unroll": 12}, use_contracts=["bcd"],
